@@ -325,6 +325,7 @@ class Interp:
         return st
 
     def exec_stmt(self, s, st):
+        self.cur_stmt = s
         m = getattr(self, "st_" + type(s).__name__, None)
         if m is None:
             self.warnings.append("unsupported statement %s at %s:%d" % (type(s).__name__, self.frames[-1].func.mod.rel, s.lineno))
@@ -558,6 +559,18 @@ class Interp:
             rest = subs
             view = bv.view or "whole"
             shape = bv.shape
+            if oid is None and bv.kind in ("arr", "num") and subs:
+                # element store into an array value that has no heap object yet (result of
+                # a numpy call bound to a local): give the local its own object
+                base_t, _ = self._split_target(target)
+                if isinstance(base_t, ast.Name) and base_t.id in st.env and st.env[base_t.id].obj is None and st.env[base_t.id].kind in ("arr", "num"):
+                    fr = self.frames[-1]
+                    oid = ("local", fr.func.qual, base_t.id, getattr(base_t, "lineno", 0) and 0)
+                    o = Obj(oid, dep=bv.dep, shape=bv.shape, cfg=bv.cfg)
+                    o.dom = dict(bv.dom)
+                    st.heap[oid] = o
+                    bv = bv.with_(obj=oid, view="whole", kind="arr")
+                    st.env[base_t.id] = bv
         for sl in rest:
             sub_vals.append(self.eval_slice(sl, st))
         if len(rest) == 1:
